@@ -239,7 +239,7 @@ def mutate(ops, rng, rate, kinds):
                 line = line.rstrip() + " " + " ".join(extra)
             out.append(line)
             continue
-        if ws[0] == "cn_req":
+        if ws[0] in ("cn_req", "cn_reqc"):
             nreq += 1
             sids.append(2 * nreq - 1)
         out.append(line)
